@@ -21,7 +21,9 @@ func init() {
 			ruleC14B4(r)
 			ruleC14B5(r)
 			ruleC14B6(r)
-			ruleLoopDrivers(r, "B7", "the expiry sweep stays periodic: in the transports and the segment package every receive inside a loop from a time source is a Ticker, a time.After, or a Timer that is re-armed inside the loop when its branch continues the loop", func(fn *ssa.Function) bool { return strings.HasPrefix(fnPkgPath(fn), modPath+"/transport/") || fnPkgPath(fn) == modPath+"/internal/segment" }, 2)
+			ruleLoopDrivers(r, "B7", "the expiry sweep stays periodic: in the transports and the segment package every receive inside a loop from a time source is a Ticker, a time.After, or a Timer that is re-armed inside the loop when its branch continues the loop", func(fn *ssa.Function) bool {
+				return strings.HasPrefix(fnPkgPath(fn), modPath+"/transport/") || fnPkgPath(fn) == modPath+"/internal/segment"
+			}, 2)
 			ruleNoSwallowedErrors(r, "B8", 3, true, "/internal/segment", "/transport/quic", "/transport/webtransport")
 			ruleC14B9(r)
 			ruleDurationUnits(r, "B10", "/transport/quic", "/transport/webtransport", "/internal/segment")
